@@ -325,6 +325,7 @@ func main() {
 			NoMergeDepth: 4,
 		})
 	}
+	concurrentPart(r)
 	// every explored history IS an execution of the implementation (no separate model to conform):
 	r.Set("traces_validated_against_impl", r.Count("transitions"))
 	r.Set("bounds", map[string]any{"keys": keys, "ttl": ttl.String(), "alphabet": fmt.Sprint(alphabet), "depth": depth})
